@@ -13,7 +13,7 @@ theorem xorSem2_nil : XorSem2 scope ρ σ0 wo [] := by
   intro d a s s' h hp _ _
   unfold compileXorArgs at h
   obtain ⟨rfl, rfl⟩ := run_pure_ok.mp h
-  exact ⟨rfl, hp, Sem2.refl _, by simp [evalXor]⟩
+  exact ⟨rfl, hp, Sem2.refl _, by simp [evalXor], fun _ h => absurd rfl h⟩
 
 /-- generic branch of the `compile_xor` loop -/
 theorem xorStep_sem2 {a : BExp} {as : List BExp} {d q : Nat} {s s' : CState}
@@ -29,20 +29,21 @@ theorem xorStep_sem2 {a : BExp} {as : List BExp} {d q : Nat} {s s' : CState}
     q = d ∧ Pre2 scope ρ σ0 s' ∧
       Sem2 scope σ0 wo (CtlQ scope ρ s') (· = d) (· ∈ compKeysList (a :: as))
         (fun m => Avail s m ∧ ¬ Avail s' m) s s' ∧
-      cur σ0 s' d = Bool.xor (cur σ0 s d) (evalXor ρ (a :: as)) := by
+      cur σ0 s' d = Bool.xor (cur σ0 s d) (evalXor ρ (a :: as)) ∧ (wo = false → a :: as ≠ [] → Tgt s' d) := by
   obtain ⟨d', s1, h1, h2⟩ := run_bind_ok.mp h
   obtain ⟨hp1, sem1, _, hv1⟩ := iha (some d) none h1 hp
     (fun p hp' c hc => hcache p hp' c (by simp [compKeysList, hc]))
     (by intro d0 h0; cases h0; exact hpd) (by intro y hy; cases hy)
     (by intro hs; rw [hns] at hs; cases hs)
-  obtain ⟨e', hval⟩ := hv1 d rfl
+  obtain ⟨e', hval, htg⟩ := hv1 d rfl
   subst e'
   dsimp only at h2
   rcases run_ite_ok.mp h2 with ⟨hc, _⟩ | ⟨_, h2⟩
   · simp at hc
-  · obtain ⟨rfl, hp2, sem2, hv2⟩ := ihs d' h2 hp1 (cache_next2 hcache sem1 (fun _ h => h) hdis)
+  · obtain ⟨rfl, hp2, sem2, hv2, _⟩ := ihs d' h2 hp1 (cache_next2 hcache sem1 (fun _ h => h) hdis)
       (hpd.next sem1)
-    refine ⟨rfl, hp2, ((sem1.monoQ (CtlQ.of_sem sem2)).trans' sem2).mono ?_ ?_ ?_, ?_⟩
+    refine ⟨rfl, hp2, ((sem1.monoQ (CtlQ.of_sem sem2)).trans' sem2).mono ?_ ?_ ?_, ?_,
+      fun hwo _ => (htg hwo).of_sem sem2⟩
     · rintro q _ (h' | h')
       · cases h'; rfl
       · exact h'
@@ -69,13 +70,14 @@ theorem xorNotStep_sem2 {inner : BExp} {as : List BExp} {d q : Nat} {s s' : CSta
     q = d ∧ Pre2 scope ρ σ0 s' ∧
       Sem2 scope σ0 wo (CtlQ scope ρ s') (· = d) (· ∈ compKeysList (.not inner :: as))
         (fun m => Avail s m ∧ ¬ Avail s' m) s s' ∧
-      cur σ0 s' d = Bool.xor (cur σ0 s d) (evalXor ρ (.not inner :: as)) := by
+      cur σ0 s' d = Bool.xor (cur σ0 s d) (evalXor ρ (.not inner :: as)) ∧
+      (wo = false → BExp.not inner :: as ≠ [] → Tgt s' d) := by
   obtain ⟨d', s1, h1, h2⟩ := run_bind_ok.mp h
   obtain ⟨hp1, sem1, _, hv1⟩ := iha (some d) none h1 hp
     (fun p hp' c hc => hcache p hp' c (by simp [compKeysList, compKeys, hc]))
     (by intro d0 h0; cases h0; exact hpd) (by intro y hy; cases hy)
     (by intro hs; rw [hns] at hs; cases hs)
-  obtain ⟨e', hval⟩ := hv1 d rfl
+  obtain ⟨e', hval, htg⟩ := hv1 d rfl
   subst e'
   dsimp only at h2
   rcases run_ite_ok.mp h2 with ⟨hc, _⟩ | ⟨_, h2⟩
@@ -83,14 +85,15 @@ theorem xorNotStep_sem2 {inner : BExp} {as : List BExp} {d q : Nat} {s s' : CSta
   · obtain ⟨u, s2, hx, h3⟩ := run_bind_ok.mp h2
     have hpd1 := hpd.next sem1
     have hp2 := xGate_pre2 hx hp1 hpd1
-    obtain ⟨ax, semx⟩ := xGate_sem2 (scope := scope) (σ0 := σ0) (wo := wo) (Q := CtlQ scope ρ s') hx hpd1.1
+    obtain ⟨ax, semx, _⟩ := xGate_sem2 (scope := scope) (σ0 := σ0) (wo := wo) (Q := CtlQ scope ρ s') hx hpd1.1
     have hc1 := cache_next2 hcache sem1 (by
       intro c h'
       simp [compKeys, show c ∈ compKeys inner from h']) hdis
-    obtain ⟨rfl, hp3, sem3, hv3⟩ := ihs d' h3 hp2
+    obtain ⟨rfl, hp3, sem3, hv3, _⟩ := ihs d' h3 hp2
       (fun p hp' c hc => hc1 p (by rw [← ax.expq]; exact hp') c hc) (hpd1.next semx)
     have tail := semx.trans' sem3
-    refine ⟨rfl, hp3, ((sem1.monoQ (CtlQ.of_sem tail)).trans' tail).mono ?_ ?_ ?_, ?_⟩
+    refine ⟨rfl, hp3, ((sem1.monoQ (CtlQ.of_sem tail)).trans' tail).mono ?_ ?_ ?_, ?_,
+      fun hwo _ => (htg hwo).of_sem tail⟩
     · rintro q _ (h' | (h' | h'))
       · cases h'; rfl
       · exact h'
@@ -129,11 +132,11 @@ theorem xorSem2_cons {a : BExp} {as : List BExp} (hwf : wfExp scope wo a = true)
       have ac := cx_run hcx
       have hpd2 : Priv scope s2 d :=
         ⟨by unfold Avail; rw [ac.free, ac.nq]; exact hpd.1, by rw [ac.qmap]; exact hpd.2⟩
-      obtain ⟨rfl, hp3, sem2, hv2⟩ := ihs d h2 hp2
+      obtain ⟨rfl, hp3, sem2, hv2, _⟩ := ihs d h2 hp2
         (fun p hp' c hc => hcache p (by rw [← ac.expq]; exact hp') c (by simp [compKeysList, compKeys, hc])) hpd2
-      obtain ⟨_, semc⟩ := cx_sem2 (scope := scope) (σ0 := σ0) (wo := wo) (Q := CtlQ scope ρ s') hcx hpd.1
+      obtain ⟨_, semc, tgc⟩ := cx_sem2 (scope := scope) (σ0 := σ0) (wo := wo) (Q := CtlQ scope ρ s') hcx hpd.1
         (fun _ => Or.inr ⟨n, hk, sem2.qkeep n q0 hk (by rw [ac.qmap]; exact hq0), (hp.tbl n q0 hk hq0).2.2⟩)
-      refine ⟨rfl, hp3, (semc.trans' sem2).mono ?_ ?_ ?_, ?_⟩
+      refine ⟨rfl, hp3, (semc.trans' sem2).mono ?_ ?_ ?_, ?_, fun _ _ => tgc.of_sem sem2⟩
       · rintro q _ (h' | h') <;> exact h'
       · rintro c (h' | h')
         · exact h'.elim
@@ -169,7 +172,7 @@ theorem xorSem2_cons {a : BExp} {as : List BExp} (hwf : wfExp scope wo a = true)
   | ite x y z => simp [wfExp] at hwf
   | imp x y => simp [wfExp] at hwf
 
-theorem exprSem2_xor {args : List BExp} (ih : XorSem2 scope ρ σ0 wo args) :
+theorem exprSem2_xor {args : List BExp} (ih : XorSem2 scope ρ σ0 wo args) (hne : wo = false → args ≠ []) :
     ExprSem2 scope ρ σ0 wo (.xor args) := by
   intro dest sym a s s' h hp hcache hd hsym _
   unfold compileExpr at h
@@ -186,13 +189,13 @@ theorem exprSem2_xor {args : List BExp} (ih : XorSem2 scope ρ σ0 wo args) :
     obtain ⟨rfl, rfl⟩ := run_pure_ok.mp hp0
     obtain ⟨d', s3, hx, h3⟩ := run_bind_ok.mp h2
     obtain ⟨rfl, rfl⟩ := run_pure_ok.mp h3
-    obtain ⟨rfl, hp', sem1, hv⟩ := ih d0 hx hp hsub (hd d0 rfl)
+    obtain ⟨rfl, hp', sem1, hv, htg⟩ := ih d0 hx hp hsub (hd d0 rfl)
     refine ⟨hp', sem1.mono ?_ ?_ ?_, fun hn => (by cases hn), fun d' hd' => ?_⟩
     · rintro q _ h'; rw [h']
     · rintro c h'; simp [compKeys, show c ∈ compKeysList args from h']
     · rintro m h'; exact ⟨h'.1, h'.2, fun hn => by cases hn⟩
     · cases hd'
-      exact ⟨rfl, by rw [hv]; simp [BExp.eval]⟩
+      exact ⟨rfl, by rw [hv]; simp [BExp.eval], fun hwo => htg hwo (hne hwo)⟩
   | none =>
     simp only [Option.isNone_none, ↓reduceIte] at h1
     obtain ⟨d, s2, hf, h2⟩ := run_bind_ok.mp h1
@@ -201,7 +204,7 @@ theorem exprSem2_xor {args : List BExp} (ih : XorSem2 scope ρ σ0 wo args) :
     obtain ⟨d', s3, hx, h3⟩ := run_bind_ok.mp h2
     obtain ⟨u, s4, hset, h4⟩ := run_bind_ok.mp h3
     obtain ⟨rfl, rfl⟩ := run_pure_ok.mp h4
-    obtain ⟨rfl, hp3, sem1, hv⟩ := ih d hx hp2 (by
+    obtain ⟨rfl, hp3, sem1, hv, htg⟩ := ih d hx hp2 (by
       intro p hp' c hc
       rcases semf.keys p hp' with ⟨p0, hp0, e0⟩ | hk
       · rw [← e0]; exact hsub p0 hp0 c hc
@@ -211,7 +214,7 @@ theorem exprSem2_xor {args : List BExp} (ih : XorSem2 scope ρ σ0 wo args) :
     have tail4 := (sem1.monoQ (CtlQ.of_sem sem4)).trans' sem4
     have hnava' : ¬ Avail s' a := fun h' => hnava (tail4.avail a h')
     have hanc' : a ∈ s'.qc.anc := tail4.akeep a hanca
-    refine ⟨hp4, (semf.trans' tail4).mono ?_ ?_ ?_, fun _ => ⟨Or.inr ⟨hava, hanc'⟩, hnava', ?_, fun _ => hanc'⟩,
+    refine ⟨hp4, (semf.trans' tail4).mono ?_ ?_ ?_, fun _ => ⟨Or.inr ⟨hava, hanc', fun hwo => (htg hwo (hne hwo)).of_sem sem4⟩, hnava', ?_, fun _ => hanc'⟩,
       fun d' hd' => by cases hd'⟩
     · rintro q hq' (h' | (h' | h'))
       · exact h'.elim
@@ -252,19 +255,26 @@ theorem wfExp_strip {a : BExp} (h : wfExp scope wo a = true) : wfExp scope wo (s
   cases a <;> simp_all [stripNot, wfExp]
 
 theorem wf_or_cond {l : List BExp} (h : wfExp scope wo (.or l) = true) :
-    wfExpList scope wo l = true ∧ (wo = false → l.length ≤ 2 ∨ ∀ a ∈ l, isLeaf a = false) := by
+    wfExpList scope wo l = true ∧ (wo = false → l.length ≤ 2 ∨ ∀ a ∈ l, isLeaf a = false) ∧
+      (wo = false → l ≠ []) := by
   simp only [wfExp, Bool.and_eq_true, Bool.or_eq_true, decide_eq_true_eq, List.all_eq_true,
-    Bool.not_eq_true'] at h
-  refine ⟨h.1, fun hwo => ?_⟩
-  rcases h.2 with (h' | h') | h'
-  · rw [hwo] at h'; cases h'
-  · exact Or.inl h'
-  · exact Or.inr h'
+    Bool.not_eq_true', List.isEmpty_eq_false_iff] at h
+  refine ⟨h.1, fun hwo => ?_, fun hwo => ?_⟩
+  · rcases h.2 with h' | h'
+    · rw [hwo] at h'; cases h'
+    · exact h'.2
+  · rcases h.2 with h' | h'
+    · rw [hwo] at h'; cases h'
+    · exact h'.1
 
 theorem wf_xor_cond {l : List BExp} (h : wfExp scope wo (.xor l) = true) :
-    wfExpList scope wo l = true ∧ ∀ a ∈ l, xorArgBad a = false := by
-  simp only [wfExp, Bool.and_eq_true, List.all_eq_true, Bool.not_eq_true'] at h
-  exact h
+    wfExpList scope wo l = true ∧ (∀ a ∈ l, xorArgBad a = false) ∧ (wo = false → l ≠ []) := by
+  simp only [wfExp, Bool.and_eq_true, Bool.or_eq_true, List.all_eq_true, Bool.not_eq_true',
+    List.isEmpty_eq_false_iff] at h
+  refine ⟨h.1.1, h.1.2, fun hwo => ?_⟩
+  rcases h.2 with h' | h'
+  · rw [hwo] at h'; cases h'
+  · exact h'
 
 theorem wf_cons {a : BExp} {as : List BExp} (h : wfExpList scope wo (a :: as) = true) :
     wfExp scope wo a = true ∧ wfExpList scope wo as = true := by
@@ -287,10 +297,10 @@ theorem exprSem2 : ∀ e : BExp, wfExp scope wo e = true → Distinct (compKeys 
       (distinct_cons_list2 (by simpa [compKeys] using hd)))
   | .or args => fun hwf hd =>
     exprSem2_or (argsSem2 args (wf_or_cond hwf).1 (distinct_cons_list2 (by simpa [compKeys] using hd)))
-      (wf_or_cond hwf).2
+      (wf_or_cond hwf).2.1 (wf_or_cond hwf).2.2
   | .xor args => fun hwf hd =>
-    exprSem2_xor (xorSem2 args (wf_xor_cond hwf).1 (wf_xor_cond hwf).2
-      (distinct_cons_list2 (by simpa [compKeys] using hd)))
+    exprSem2_xor (xorSem2 args (wf_xor_cond hwf).1 (wf_xor_cond hwf).2.1
+      (distinct_cons_list2 (by simpa [compKeys] using hd))) (wf_xor_cond hwf).2.2
   | .ite _ _ _ => fun hwf _ => by simp [wfExp] at hwf
   | .imp _ _ => fun hwf _ => by simp [wfExp] at hwf
 theorem argsSem2 : ∀ as : List BExp, wfExpList scope wo as = true → Distinct (compKeysList as) →
